@@ -1,0 +1,27 @@
+// SPDX-FileCopyrightText: 2022-present Intel Corporation
+//
+// SPDX-License-Identifier: Apache-2.0
+
+//go:build verif
+
+// Contracts for the deductive verifier in /verif (govc). Comment-only: this file contains no code
+// and is excluded from every build that does not set the "verif" tag.
+
+package tree
+
+//@ import configapi "github.com/onosproject/onos-api/go/onos/config/v2"
+
+//@ func PrunePathValues(paths, leaveTopDeletedPaths) (result)
+//@   trusted
+//@   modifies nothing
+//@   ensures result == nil || fresh(result)
+
+//@ func PrunePathMap(pathMap, leaveTopDeletedPaths) (result)
+//@   trusted
+//@   modifies nothing
+//@   ensures result != nil && fresh(result)
+
+//@ func BuildTree(values, jsonRFC7951) (doc, err)
+//@   trusted
+//@   modifies nothing
+//@   ensures err == nil ==> fresh(doc)
